@@ -72,7 +72,22 @@ SEPPAIR = dict(
                                  ("ygt", "ygt", "GapType"), ("xgap", "xgap", "SZ"), ("ygap", "ygap", "SZ")]},
 )
 
-JOBS = {"geometry": GEOMETRY, "makepath": MAKEPATH, "sepdir": SEPDIR, "tri": TRI, "seppair": SEPPAIR}
+PINDIRS = dict(
+    src="cola/libavoid/connectionpin.cpp",
+    ns="AdaptaVerif.Gen.PinDirs",
+    out="lean/AdaptaVerif/Gen/PinDirs.lean",
+    functions=["directions"],
+    filters={"directions": "ShapeConnectionPin::directions"},
+    types={"ConnDirFlags": "Nat"},
+    this_params=[("visDirs", "Nat"), ("xOff", "Rat"), ("yOff", "Rat")],
+    members_all={"m_visibility_directions": ("visDirs", "Nat"), "m_x_offset": ("xOff", "Rat"), "m_y_offset": ("yOff", "Rat")},
+    constants={"ATTACH_POS_LEFT": ("(0 : Rat)", "Rat"), "ATTACH_POS_TOP": ("(0 : Rat)", "Rat"),
+               "ATTACH_POS_RIGHT": ("(1 : Rat)", "Rat"), "ATTACH_POS_BOTTOM": ("(1 : Rat)", "Rat")},
+    enums={"ConnDirNone": ("(0 : Nat)", "Nat"), "ConnDirUp": ("(1 : Nat)", "Nat"), "ConnDirDown": ("(2 : Nat)", "Nat"),
+           "ConnDirLeft": ("(4 : Nat)", "Nat"), "ConnDirRight": ("(8 : Nat)", "Nat"), "ConnDirAll": ("(15 : Nat)", "Nat")},
+)
+
+JOBS = {"geometry": GEOMETRY, "makepath": MAKEPATH, "sepdir": SEPDIR, "tri": TRI, "seppair": SEPPAIR, "pindirs": PINDIRS}
 
 def regenerate(names, ROOT, REPO):
     info = {}
